@@ -1037,17 +1037,11 @@ impl ContinuityStreamCache {
         };
 
         // Determine the cut point `from_seq` as: (seq before the next message) or head_seq.
-        // Use the full sidecar's head seq when available so `from_seq` matches the truth stream.
-        let head_seq = self
-            .try_read_last_seq(continuity_id)
-            .ok()
-            .flatten()
-            .or_else(|| {
-                self.try_read_last_seq_messages_runs_v1(continuity_id)
-                    .ok()
-                    .flatten()
-            })
-            .unwrap_or(anchor_seq);
+        // The head seq comes from the full sidecar so `from_seq` matches the truth stream (the
+        // mr sidecar omits non-message events); without it this window is a cache miss.
+        let Some(head_seq) = self.try_read_last_seq(continuity_id).ok().flatten() else {
+            return Ok(None);
+        };
 
         let mut next_message_seq: Option<u64> = None;
         let mut boundary_pos: u64 = sidecar_file.metadata()?.len();
